@@ -127,6 +127,10 @@ class Repo:
                         _inline.PKG[fn[:-3]] = ast.parse(fh.read())
                 except SyntaxError:
                     pass
+        from . import normalize as _norm
+        _norm.PKG_CONSTS.clear()
+        for mn, tr in _inline.PKG.items():
+            _norm.PKG_CONSTS[mn] = _norm.module_constants(tr)
         for fn in sorted(os.listdir(pkgdir)):
             if not fn.endswith(".py"):
                 continue
